@@ -35,7 +35,11 @@ def _gen_circuit(rng, depth=1):
     import cirq
     import sympy
 
-    qs = [cirq.GridQubit(5, 3), cirq.GridQubit(5, 4), cirq.NamedQubit("q0"), cirq.LineQubit(1)]
+    qs = rng.choice([
+        [cirq.GridQubit(5, 3), cirq.GridQubit(5, 4), cirq.NamedQubit("q0"), cirq.LineQubit(1)],
+        [cirq.GridQubit(-1, 0), cirq.GridQubit(-1, 1), cirq.LineQubit(-1), cirq.LineQubit(-2)],
+        [cirq.GridQubit(2, -3), cirq.GridQubit(2, -2), cirq.NamedQubit("q_1"), cirq.NamedQubit("a b"), cirq.LineQubit(0)],
+    ])
     s = sympy.Symbol("s")
     tags = ["q0", "5_3", "q1", 1, True, 1.0, "tag", 0.5, "q(1)", "1"]
     ops = []
@@ -53,7 +57,61 @@ def _gen_circuit(rng, depth=1):
         sub = cirq.FrozenCircuit(_gen_circuit(rng, depth - 1))
         co = cirq.CircuitOperation(sub)
         c.append([co, co.repeat(2) if not cirq.is_measurement(sub) else co, cirq.CircuitOperation(cirq.FrozenCircuit(_gen_circuit(rng, 0)))])
+        c.append(_variant(rng, sub))
     return c
+
+
+def _variant(rng, sub):
+    """a CircuitOperation over `sub` with one of the wrapper's own fields set (each is a separate field of the message)"""
+    import cirq
+    import sympy
+
+    u = sympy.Symbol("u")
+    qs = sorted(sub.all_qubits())
+    kind = rng.randrange(9)
+    if cirq.is_measurement(sub) and kind < 4:
+        kind = 4 + kind
+    if kind == 0:
+        return cirq.CircuitOperation(sub, repetitions=-2)
+    if kind == 1:
+        return cirq.CircuitOperation(sub, repetitions=2, repetition_ids=["a", "b"])
+    if kind == 2:
+        return cirq.CircuitOperation(sub, repetitions=-2, repetition_ids=["a", "b"])  # cannot be carried by the message: must be refused, not altered
+    if kind == 3:
+        return cirq.CircuitOperation(sub, repetitions=3, use_repetition_ids=rng.random() < 0.5)
+    if kind == 4:
+        return cirq.CircuitOperation(sub, param_resolver={"s": rng.choice([u, 2 * u, u + 0.5, 0.25, 1])})
+    if kind == 5 and len(qs) >= 2:
+        return cirq.CircuitOperation(sub).with_qubits(*(qs[1:] + qs[:1]))
+    if kind == 6 and "m" in cirq.measurement_key_names(sub):
+        return cirq.CircuitOperation(sub, measurement_key_map={"m": "mm"})
+    if kind == 7 and not cirq.is_measurement(sub):
+        return cirq.CircuitOperation(sub, repetitions=1, repetition_ids=["only"])
+    return cirq.CircuitOperation(sub)
+
+
+def _same_wrapper(x, y):
+    import numbers
+
+    import sympy
+
+    if (x.repetitions, x.repetition_ids, x.use_repetition_ids) != (y.repetitions, y.repetition_ids, y.use_repetition_ids):
+        return False
+    if dict(x.qubit_map) != dict(y.qubit_map) or dict(x.measurement_key_map) != dict(y.measurement_key_map) or x.repeat_until != y.repeat_until:
+        return False
+    px, py = {str(k): v for k, v in x.param_resolver.param_dict.items()}, {str(k): v for k, v in y.param_resolver.param_dict.items()}
+    if set(px) != set(py):
+        return False
+    for k in px:
+        a, b = px[k], py[k]
+        if isinstance(a, numbers.Number) and isinstance(b, numbers.Number):
+            if abs(a - b) > 1e-6:
+                return False
+        else:
+            a, b = sympy.sympify(a), sympy.sympify(b)
+            if a.free_symbols != b.free_symbols or any(abs(complex((a - b).subs({t: v for t in a.free_symbols}))) > 1e-5 for v in (0.3, -1.7)):
+                return False
+    return True
 
 
 def standin_circuit_roundtrip(tier, seed):
@@ -82,9 +140,28 @@ def standin_circuit_roundtrip(tier, seed):
             fails.append(dict(args=dict(circuit=repr(c), back=repr(back)[:1500]), failed="circuit-roundtrip", clause="deserialize(serialize(c)) differs from c beyond float32 rounding"))
         if len(fails) >= 3:
             break
+    # tags ON a CircuitOperation (the message has no field for them): one fixed input, reported under its own name
+    q = cirq.GridQubit(1, 1)
+    tagged = cirq.Circuit(cirq.CircuitOperation(cirq.FrozenCircuit(cirq.X(q) ** 0.5)).with_tags("wrapped"))
+    cases += 1
+    try:
+        back = ser.deserialize(ser.serialize(tagged))
+        if back != tagged:
+            fails.append(dict(args=dict(circuit=repr(tagged), back=repr(back)), failed="circuit-operation-tags", clause="tags on a CircuitOperation survive the round trip (or the circuit is refused)"))
+    except (ValueError, TypeError):
+        pass
+    # a NamedQubit whose name reads as a line or grid id: one fixed input, reported under its own name
+    named = cirq.Circuit(cirq.X(cirq.NamedQubit("3")) ** 0.5, cirq.Y(cirq.NamedQubit("1_2")))
+    cases += 1
+    try:
+        back = ser.deserialize(ser.serialize(named))
+        if back != named:
+            fails.append(dict(args=dict(circuit=repr(named), back=repr(back)), failed="qubit-id-ambiguity", clause="a NamedQubit comes back as the same NamedQubit (or the circuit is refused)"))
+    except (ValueError, TypeError):
+        pass
     return dict(function="cirq-google/cirq_google/serialization/circuit_serializer.py:CircuitSerializer", case="circuit-roundtrip",
                 bound="seeded circuits: 14 gate shapes, numeric/symbolic/near-equal exponents, tags that collide with qubit ids and with each other under == (1, True, 1.0), nested and "
-                      "repeated CircuitOperations, grid/named/line qubits", cases=cases, distinct=cases, failures=len(fails), exhaustive=False, _fails=fails[:3])
+                      "repeated CircuitOperations with each wrapper field set (negative repetitions, repetition ids, parameter and key maps with symbolic values, remapped qubits), grid/named/line qubits including negative coordinates and names with separators", cases=cases, distinct=cases, failures=len(fails), exhaustive=False, _fails=fails[:3])
 standin_circuit_roundtrip.prop = "C16"
 
 
@@ -108,7 +185,7 @@ def _equal_circuits(a, b):
             if isinstance(ux, cirq.CircuitOperation) or isinstance(uy, cirq.CircuitOperation):
                 if not (isinstance(ux, cirq.CircuitOperation) and isinstance(uy, cirq.CircuitOperation)):
                     return False
-                if ux.repetitions != uy.repetitions or not _equal_circuits(ux.circuit.unfreeze(), uy.circuit.unfreeze()):
+                if not _same_wrapper(ux, uy) or not _equal_circuits(ux.circuit.unfreeze(), uy.circuit.unfreeze()):
                     return False
                 continue
             if ux == uy or cirq.approx_eq(ux, uy, atol=1e-6):
@@ -229,6 +306,39 @@ def standin_sweeps_roundtrip(tier, seed):
     return dict(function="cirq-google/cirq_google/api/v2/sweeps.py", case="sweep-roundtrip", bound="18 sweep shapes incl. empty, single-point linspace, nested product/zip, concat, zip-longest, values with (mixed) physical units",
                 cases=cases, distinct=cases, failures=len(fails), exhaustive=False, _fails=fails[:3])
 standin_sweeps_roundtrip.prop = "C16"
+def standin_run_contexts(tier, seed):
+    """run contexts as the engine writes them (plain and gzip-compressed; one repetition count or one per sweep) read back by the engine job"""
+    import cirq
+    from cirq_google.api import v2
+    from cirq_google.engine.engine_job import _deserialize_run_context
+    from google.protobuf import any_pb2
+
+    cases, fails = 0, []
+    sweepables = [None, cirq.Linspace("a", 0, 1, 3), [cirq.Points("a", [1, 2]), cirq.Points("b", [0.5])], cirq.Zip(cirq.Points("a", [1, 2]), cirq.Points("b", [3, 4])),
+                  cirq.Product(cirq.Points("a", [1.0, 2.0]), cirq.Linspace("b", 0, 1, 2)), {"a": 0.25}]
+    for sw in sweepables:
+        want_sweeps = cirq.to_sweeps(sw)
+        for reps in (1, 100, 12345, [7] * len(want_sweeps), list(range(3, 3 + len(want_sweeps)))):
+            for comp in (False, True):
+                try:
+                    msg = v2.run_context_to_proto(sw, reps, compress_proto=comp)
+                except (ValueError, TypeError):
+                    continue
+                cases += 1
+                a = any_pb2.Any()
+                a.Pack(msg)
+                got_reps, got_sweeps = _deserialize_run_context(a)
+                want_reps = list(reps) if isinstance(reps, list) else [reps] * len(want_sweeps)
+                def pts(sws):
+                    return [[{str(k): float(v) for k, v in r.param_dict.items()} for r in x] for x in sws]
+                if list(got_reps) != want_reps or pts(got_sweeps) != pts(want_sweeps):
+                    fails.append(dict(args=dict(sweepable=repr(sw), repetitions=repr(reps), compressed=comp, got=repr((got_reps, got_sweeps))[:600]), failed="run-context-roundtrip",
+                                      clause="the run context the engine writes (run_context_to_proto) is read back by EngineJob with the same repetitions and the same sweeps"))
+    return dict(function="cirq-google/cirq_google/api/v2/sweeps.py:run_context_to_proto", case="run-context-roundtrip", bound="6 sweepables x 5 repetition forms x plain/gzip-compressed",
+                cases=cases, distinct=cases, failures=len(fails), exhaustive=True, _fails=fails[:3])
+standin_run_contexts.prop = "C16"
+
+
 def standin_conditions_roundtrip(tier, seed):
     """classical controls through the circuit wire format: every condition kind, every record index (first, last, explicit),
     bit masks, controlled sub-circuits; the conditions read back must be the conditions written"""
@@ -275,7 +385,7 @@ def standin_conditions_roundtrip(tier, seed):
                 bound="23 conditions (key / bit-mask with indices -2..2, masks, sympy, pathed key) x 2 controlled operations", cases=cases, distinct=cases, failures=len(fails),
                 exhaustive=True, _fails=uniq[:3])
 standin_conditions_roundtrip.prop = "C16"
-STANDINS = [standin_bits_native, standin_circuit_roundtrip, standin_results_roundtrip, standin_sweeps_roundtrip, standin_conditions_roundtrip]
+STANDINS = [standin_bits_native, standin_circuit_roundtrip, standin_results_roundtrip, standin_sweeps_roundtrip, standin_run_contexts, standin_conditions_roundtrip]
 
 NOT_COVERED = [
     "circuit/sweep/result/device protos themselves (protobuf reflection, float32 rounding): bounded round trips only; device specifications not exercised",
